@@ -10,7 +10,7 @@ ASSUMPTIONS = _c30.ASSUMPTIONS + [
     'nodes are marked with Node::setIncomplete() after a complete evaluation, then ForwardPropagator runs once '
     'before the next execution (the documented partial re-evaluation protocol)',
 ]
-OUTSIDE = ('graphs with more than 3 nodes (4 in the thorough tier); executors other than SingleThreadExecutor; several '
+OUTSIDE = ('BiPropGraph / bidirectional-propagation sets (not decided: biPropSet_ is ordered by node address, which makes every literal instance time out); graphs with more than 3 nodes; symbolic (non-literal) shapes or marked subsets (one symbolic bit already exceeds 400 s); executors other than SingleThreadExecutor; several '
            'subgraphs; marking nodes of a graph that was never evaluated; calling ForwardPropagator twice without an '
            'execution in between')
 
@@ -56,4 +56,8 @@ _THOROUGH = ([_g(s, m, ['thorough'], rearm=1 if m == 1 else 0) for s in (3, 5, 6
              [_g(s, m, ['thorough']) for s in (0, 1, 2, 4) for m in (1, 2)] + [_g(7, 0, ['thorough']), _g(7, 7, ['thorough'])] +
              [_b(s, bs, m, ['thorough'], rearm=1 if m == 2 else 0)
               for (s, bs) in ((7, 1), (7, 4), (7, 5), (6, 6)) for m in (1, 2, 4)])
-INSTANCES = _QUICK + _THOROUGH
+# BiPropGraph instances are NOT part of the check: biPropSet_ is a vector kept sorted by node *address*
+# (graph.cpp set_insert/upper_bound, set_union); the relative order of two heap objects is symbolic for CBMC, so even a
+# literal shape + literal marked subset did not finish within 600 s (see NOTES.md).  Kept here for reference.
+_BIPROP_REFERENCE = [x for x in _QUICK + _THOROUGH if x['name'].startswith('b_')]
+INSTANCES = [x for x in _QUICK + _THOROUGH if not x['name'].startswith('b_')]
